@@ -375,7 +375,8 @@ fn oracle_c16(case: &Case, outs: &[ImplRes]) -> Result<(), String> {
 }
 
 fn strip_trailing_none(mut v: Vec<String>) -> Vec<String> {
-    while v.last().map(|s| s == "none").unwrap_or(false) {
+    // idle answers at end of input: `None` from next / next_nb, `IoErr(Eof, 0)` from read / read_nb
+    while v.last().map(|s| s == "none" || s == "io:eof:0").unwrap_or(false) {
         v.pop();
     }
     v
